@@ -264,6 +264,11 @@ def run_case(spec):
         for a, c in enumerate('xyz'):
             par['N' + c], par[c + 'min'], par['d' + c] = axes[a]
         if rng.random() < 0.12:
+            # integer-valued parameters typed as Python ints (xmin=-3, dx=1)
+            for c in 'xyz':
+                par[c + 'min'] = int(round(par[c + 'min']))
+                par['d' + c] = int(max(1, round(abs(par['d' + c]) * 4)))
+        if rng.random() < 0.12:
             # an axis listed downwards (negative spacing): still min + i*spacing
             c = 'xyz'[int(rng.integers(3))]
             par[c + 'min'] = par[c + 'min'] + (par['N' + c] - 1) * par['d' + c]
